@@ -196,6 +196,57 @@ def _call_walk(a):
     return (r, md)
 
 
+def _closure_term(f, enc):
+    """a function `jsx_tag_create` returned, as the closure value of the translation: the captured variables in the order of
+    their first occurrence in the body of the nested function (`name`, `allowedProps`), then `__name__`"""
+    import types
+    if not (isinstance(f, types.FunctionType) and f.__closure__ and f.__code__.co_freevars):
+        return None
+    cells = dict(zip(f.__code__.co_freevars, (c.cell_contents for c in f.__closure__)))
+    if set(cells) != {"name", "allowedProps"}:
+        return None
+    import ast, inspect
+    order = [n for n in f.__code__.co_names + f.__code__.co_freevars if n in cells]
+    # first occurrence in the body, in source order
+    try:
+        src = inspect.getsource(f)
+        tree = ast.parse("if 1:\n" + src if src.startswith((" ", "\t")) else src)
+        seen = []
+        for n in sorted((n for n in ast.walk(tree) if isinstance(n, ast.Name)), key=lambda n: (n.lineno, n.col_offset)):
+            if n.id in cells and n.id not in seen:
+                seen.append(n.id)
+        order = seen
+    except Exception:  # noqa: BLE001
+        pass
+    return ("O closure [ fn S " + es("jsx_tag_create.<inner>") + " captured L [ " + "".join(enc(cells[k]) + " " for k in order)
+            + "] __name__ " + enc(f.__name__) + " ]")
+
+
+ops_src.ENCODE.append(_closure_term)
+
+
+def _jsx_new(a):
+    m = _jsxmod()
+    return m.jsx.__new__(m.jsx, *a[0])
+
+
+def _create_tag(a):
+    """the function defined inside `jsx_tag_create`, closed over `name = a[0]`, `allowedProps = a[1]` (rebuilt from its code
+    object: `jsx_tag_create` itself is not run), called with `*a[2], **a[3]`"""
+    import types
+    m = _jsxmod()
+    codes = [c for c in m.jsx_tag_create.__code__.co_consts if isinstance(c, types.CodeType)]
+    if len(codes) != 1 or set(codes[0].co_freevars) != {"name", "allowedProps"}:
+        raise LookupError("closure of jsx_tag_create")
+    vals = {"name": a[0], "allowedProps": a[1]}
+    f = types.FunctionType(codes[0], vars(m), codes[0].co_name, None, tuple(types.CellType(vals[v]) for v in codes[0].co_freevars))
+    return f(*a[2], **a[3])
+
+
+ops_src.CALLS["jsx_newC20b"] = _jsx_new
+ops_src.CALLS["jsx_addC20b"] = lambda a: _jsxmod().jsx.__add__(a[0], a[1])
+ops_src.CALLS["jsx_tag_createC20b"] = lambda a: _jsxmod().jsx_tag_create(a[0], a[1])
+ops_src.CALLS["jsx_create_tagC20b"] = _create_tag
 ops_src.CALLS["lib_dependencyC20b"] = lambda a: _jsxmod()._lib_dependency(a[0], a[1])
 ops_src.CALLS["JSXTag_tagifyC20b"] = lambda a: _jsxmod().JSXTag.tagify(a[0])
 ops_src.CALLS["JSXTag_tagify_visitorC20b"] = _call_visitor
